@@ -314,8 +314,10 @@ pub fn fairness(scn: &Scenario, out: &WorldOut, stats: &mut BTreeMap<String, u64
             // next call of this connection is ready once this one was served (and, behind a stream, once it closed)
             prev_ready_base = st;
             if call.kind == Kind::Sub && !call.oneway {
+                // (... and once the items it had produced by then were out: a stream ends behind its last item, and
+                // how long an item may take under load is the business of `stream_latency`)
                 match close_tick.get(&(client, call.seq)) {
-                    Some(ct) => prev_ready_base = prev_ready_base.max(*ct),
+                    Some(ct) => prev_ready_base = prev_ready_base.max(*ct).max(out.last_taken.get(&(client, call.seq)).copied().unwrap_or(0)),
                     None => break,
                 }
             }
@@ -337,6 +339,9 @@ fn check(scn: &Scenario, rep: &mut Report, orders: &mut std::collections::HashSe
     orders.insert(vnet::fnv(format!("{:?}", out.log.iter().map(|l| (l.client, l.seq)).collect::<Vec<_>>()).as_bytes()));
     rep.add("handle_invocations", out.log.len() as u64);
     rep.add("in_handle_arrivals", out.applied.iter().filter(|a| a.2).count() as u64);
+    if scn.coop > 0 {
+        rep.count("cases_under_a_cooperative_budget");
+    }
     if scn.wake {
         rep.count("wake_driven_cases");
         rep.add("wake_driven_waker_firings", out.wakes);
@@ -432,6 +437,36 @@ pub fn run(cfg: &Cfg) -> Report {
         check(&b.scn, &mut rep, &mut orders);
         if k % 5000 == 1 {
             rep.sample(8, || json!({"kind": "random", "scenario": b.scn.describe()}));
+        }
+    }
+    // (2a) floods through the transport under a cooperative budget: every call is a chunk of its own (one call per
+    // read, nothing is ever waiting inside zlink's buffer), all of them queued in the transports before the server
+    // runs; after a few transport operations per poll every transport answers `Pending` until the server task has
+    // yielded (what tokio's sockets do after 128 operations). A server that loses its place in the round when a
+    // poll ends that way passes over the connection whose turn it was.
+    let n_coop = cfg.n(40_000, 1_500_000);
+    for k in 0..n_coop {
+        let nconn = rng.range(2, 4);
+        let mut scn = Scenario::default();
+        for i in 0..nconn {
+            let ncalls = rng.range(2, 12);
+            let calls: Vec<CallSpec> = (0..ncalls).map(|j| CallSpec { kind: if rng.chance(1, 6) { Kind::Fail } else { Kind::Echo }, seq: 1 + j as u32, oneway: rng.chance(1, 5), more: false, payload: payload(&mut rng).chars().take(30).collect() }).collect();
+            let mut c = ConnScn { calls, ..Default::default() };
+            c.cuts = frame_cuts(&c.stream(i as u32));
+            scn.conns.push(c);
+        }
+        let mut steps: Vec<Step> = (0..nconn).map(|i| Step { ev: Ev::Accept(i), mode: Mode::Quiesce }).collect();
+        let chains: Vec<Vec<Ev>> = (0..nconn).map(|i| (0..scn.conns[i].chunks(i as u32).len()).map(|_| Ev::Deliver(i)).collect()).collect();
+        let order = random_interleaving(&chains, &mut rng);
+        steps.extend(order.into_iter().map(|e| Step { ev: e, mode: Mode::Batch }));
+        steps.push(Step { ev: Ev::Nop, mode: Mode::Quiesce });
+        scn.steps = steps;
+        scn.wake = rng.chance(1, 2);
+        scn.coop = rng.range(1, 9) as u32;
+        rep.count("floods_through_the_transport_under_a_cooperative_budget");
+        check(&scn, &mut rep, &mut orders);
+        if k == 1 {
+            rep.sample(9, || json!({"kind": "transport-flood-coop", "scenario": scn.describe().chars().take(600).collect::<String>()}));
         }
     }
     // (2b) big calls of the clients that do not flood
